@@ -551,3 +551,110 @@ Proof.
 Qed.
 End Bed.
 Export Bed.
+
+(* ------------------------------------------------------------------------------------------
+   Zoom queries at crash points (bigWig).  C14_prefix_complete says the zoom directory, every
+   level's data and every level's index hold their final bytes once the header operation is
+   included; here the READER is taken through them (Proofs/SinkReadZoom.v: C07's file theorem redone
+   for any image that reads the same info and holds each advertised level's sections and index).
+   For every crash point that includes the header operation -- n whole operations and any number
+   [c] of bytes of the next write -- read_info returns on the crash-point image the info [i] it
+   returns on the finished file, and for every resolution [r] of its zoom directory, every
+   chromosome with data and every range, [zoom_interval] returns on both images
+     Ok (map (zrec_read fp) (filter (ztouch s e) R)),
+   R = the records the zoom accumulator produced for that chromosome at that resolution
+   (C07_ordered_disjoint / C07_partition / C07_stats): the right-hand side of C07_file_zoom_query.
+   Hypotheses: those of C14_prefix_serves plus C07's guard that the resolutions fit the directory's
+   u32 field (single pass: the normalised size list; two passes: the manual list). *)
+From BT Require Proofs.ZoomFile Proofs.ZoomReadCodec Proofs.ZoomReadFile Proofs.SinkReadZoom.
+Theorem C14_prefix_serves_zoom : forall ck fp kind o sizes input p n c,
+  chunker_ok ck -> bw_parts fp kind o sizes input = Ok p ->
+  (kind = 0 /\ Forall (fun z => z < U32) (zoom_sizes_single o)) \/ (kind = 1 /\ ZoomFile.manual_u32 o) ->
+  opts_ok o -> input_ok sizes input -> Nlen (final_bytes p) < U64 ->
+  (header_index ck kind p < n)%nat ->
+  let T := snd (bw_sink_run None ck fp kind o sizes input) in
+  SinkReadZoom.serves_zoom fp o sizes input (replay T) (replay (cut_ops T n c)).
+Proof. exact SinkReadZoom.crash_after_serves_zoom. Qed.
+Print Assumptions C14_prefix_serves_zoom.
+
+(* Non-vacuity on the example (two values, manual zoom list [10], 32 operations, header operation
+   number 24): the extra hypothesis holds, and at the crash point right after the header operation
+   the level-10 query over the whole chromosome returns the two records [0,5) and [20,25) of the
+   accumulator (a record ends where its data ends), read back through zrec_read, as on the finished file. *)
+Example C14_example_serves_zoom :
+  Forall (fun z => z < U32) (zoom_sizes_single ex_o)
+  /\ exists i st,
+       read_info (replay (ex_trace ck_whole)) = Ok i
+       /\ read_info (replay (firstn 25 (ex_trace ck_whole))) = Ok i
+       /\ map zh_res (i_zooms i) = [10]
+       /\ zoom_chrom ieee (o_ips ex_o) 10 0 (map snd ex_input) zstate0 = Ok st
+       /\ map (fun z => (z_start z, z_end z)) (concat (zs_out st)) = [(0, 5); (20, 25)]
+       /\ zoom_interval (fun l => l) (replay (firstn 25 (ex_trace ck_whole))) i ex_chr1 0 1000 10
+          = Ok (map (ZoomReadCodec.zrec_read ieee) (filter (ZoomReadFile.ztouch 0 1000) (concat (zs_out st))))
+       /\ zoom_interval (fun l => l) (replay (ex_trace ck_whole)) i ex_chr1 0 1000 10
+          = Ok (map (ZoomReadCodec.zrec_read ieee) (filter (ZoomReadFile.ztouch 0 1000) (concat (zs_out st)))).
+Proof.
+  split.
+  { assert (E : zoom_sizes_single ex_o = [10]) by (vm_compute; reflexivity). rewrite E.
+    constructor; [unfold U32; lia|constructor]. }
+  eexists. eexists. split; [vm_compute; reflexivity|]. split; [vm_compute; reflexivity|].
+  split; [vm_compute; reflexivity|]. split; [vm_compute; reflexivity|].
+  split; [vm_compute; reflexivity|]. split; vm_compute; reflexivity.
+Qed.
+
+(* ------------------------------------------------------------------------------------------
+   Zoom queries at crash points (bigBed), the twin of C14_prefix_serves_zoom
+   (Proofs/SinkBedReadZoom.v: the argument of C08_zoom_query redone once, its last step applied to
+   the finished file and to the crash-point image, which holds every level's sections and index
+   because they lie beyond the 48 bytes still to be written).  For every crash point that includes
+   the header operation: read_info returns the info [i] of the finished file, and for every
+   resolution [r] of its directory, every chromosome that had entries and every range,
+   [zoom_interval] returns on both images the records bb_zoom_records yields for that chromosome
+   at that resolution that pass the reader's inclusive overlap test, each statistic as its stored
+   f32: the right-hand side of C08_zoom_query.  Hypotheses: file_hyps (as C14_bb_prefix_serves)
+   and C08's guard that the resolutions fit the directory's u32 field ([zoom_res_u32 two_pass o]:
+   single pass = the normalised size list, two passes = the manual list). *)
+From BT Require Proofs.C08FileQuery Proofs.SinkBedReadZoom.
+Module BedZoom.
+Import Model.BigBedWrite Model.BBIReadBed Model.SinkTraceBed Proofs.SinkBedPhases Proofs.SinkBedRefine Proofs.SinkBedServe.
+Theorem C14_bb_prefix_serves_zoom : forall ck fp kind o sizes autosql input sql p n c,
+  chunker_ok ck -> bb_parts fp kind o sizes autosql input = Ok (sql, p) ->
+  BedEndToEnd.file_hyps o sizes input (final_bytes p) ->
+  C08FileQuery.zoom_res_u32 (negb (kind =? 0)) o ->
+  (bb_header_index ck kind sql p < n)%nat ->
+  let T := snd (bb_sink_run None ck fp kind o sizes autosql input) in
+  SinkBedReadZoom.bb_serves_zoom fp o input (replay T) (replay (cut_ops T n c)).
+Proof. exact SinkBedReadZoom.bb_crash_after_serves_zoom. Qed.
+Print Assumptions C14_bb_prefix_serves_zoom.
+
+(* Non-vacuity on the bigBed example (three overlapping entries, BED3 schema, manual zoom list [10],
+   header operation number 26): the extra hypothesis holds for both pass modes, and right after the
+   header operation the level-10 query over the whole chromosome returns, as on the finished file,
+   the records of bb_zoom_records read back through zrec_read *)
+Example C14_bb_example_serves_zoom :
+  C08FileQuery.zoom_res_u32 false ex_o /\ C08FileQuery.zoom_res_u32 true ex_o
+  /\ exists i secs,
+       read_info (replay (exb_trace ck_whole 0)) = Ok i
+       /\ read_info (replay (firstn 27 (exb_trace ck_whole 0))) = Ok i
+       /\ map zh_res (i_zooms i) = [10]
+       /\ BedSweep.bb_zoom_records ieee (o_ips ex_o) 10 0 (map to_sw (map snd exb_input)) = Ok secs
+       /\ concat secs <> []
+       /\ zoom_interval (fun l => l) (replay (firstn 27 (exb_trace ck_whole 0))) i ex_chr1 0 1000 10
+          = Ok (map (ZoomReadCodec.zrec_read ieee)
+                    (filter (fun z => (0 <=? z_end z) && (z_start z <=? 1000)) (concat secs)))
+       /\ zoom_interval (fun l => l) (replay (exb_trace ck_whole 0)) i ex_chr1 0 1000 10
+          = Ok (map (ZoomReadCodec.zrec_read ieee)
+                    (filter (fun z => (0 <=? z_end z) && (z_start z <=? 1000)) (concat secs))).
+Proof.
+  split; [|split].
+  - unfold C08FileQuery.zoom_res_u32.
+    assert (E : zoom_sizes_single ex_o = [10]) by (vm_compute; reflexivity). rewrite E.
+    constructor; [unfold U32; lia|constructor].
+  - unfold C08FileQuery.zoom_res_u32, ZoomFile.manual_u32, ex_o. cbn [o_manual].
+    constructor; [unfold U32; lia|constructor].
+  - eexists. eexists. split; [vm_compute; reflexivity|]. split; [vm_compute; reflexivity|].
+    split; [vm_compute; reflexivity|]. split; [vm_compute; reflexivity|].
+    split; [vm_compute; discriminate|]. split; vm_compute; reflexivity.
+Qed.
+End BedZoom.
+Export BedZoom.
